@@ -25,11 +25,13 @@ import (
 //verif:stub go.uber.org/nilaway/diagnostic.c11NewFset = c11NewFsetSym
 
 var ndHarnesses = map[string]func(){
-	"Harness_C11": Harness_C11,
-	"Harness_C13": Harness_C13,
+	"Harness_C11":          Harness_C11,
+	"Harness_C13":          Harness_C13,
 	"Harness_C14_Conflict": Harness_C14_Conflict,
 	"Harness_C14_ToPos":    Harness_C14_ToPos,
 	"Harness_C04_K1":       Harness_C04_K1,
+	"Harness_C11_Flow":     Harness_C11_Flow,
+	"Harness_C04_K5":       Harness_C04_K5,
 }
 
 // toPos is the subject of C14; here it is the identity on offsets under symx (natively the real one runs).
@@ -226,6 +228,44 @@ func Harness_C13() {
 		ndAssert("C13.stated_count_equals_list_length", counts[d] == listLen[d])
 	}
 	ndAssert("C13.no_new_diagnostics", len(grouped) <= len(plain))
+}
+
+// Harness_C11_Flow (C11 through the engine's own entry point): conflicts are handed to the engine by
+// AddOverconstraintConflict as explanation chains whose hops lie on different (symbolic) lines; a
+// nolint range must suppress a conflict iff the line it is REPORTED at - the last hop of the
+// non-nil flow - lies inside the range, never because some other hop of the flow does.
+func Harness_C11_Flow() {
+	n := 1 + ndChoice("conflicts", ndParam("N", 2))
+	grouping := ndChoice("grouping", 2) == 1
+	from := ndInt("from", 1, 50)
+	to := ndInt("to", 1, 50)
+	ndAssume(from <= to)
+	w := &c11World{ranges: []Range{{Filename: "a.go", From: from, To: to}}, grouping: grouping}
+	e := w.engine()
+	want := 0
+	for k := 0; k < n; k++ {
+		hops := 1 + ndChoice("nonnil_hops", 2)
+		var head, tail *c14Exp
+		var last token.Position
+		for h := 0; h < hops; h++ {
+			p := token.Position{Filename: "a.go", Line: ndInt("hop_line", 1, 50), Column: 1 + k, Offset: 100*k + 10*h}
+			x := &c14Exp{val: false, pos: p}
+			if head == nil {
+				head = x
+			} else {
+				tail.deeper = x
+			}
+			tail, last = x, p
+		}
+		// a distinct nil source per conflict, so that grouping has nothing to merge
+		nilR := &c14Exp{val: true, pos: token.Position{Filename: "a.go", Line: 900 + k, Column: 1, Offset: 9000 + k}}
+		e.AddOverconstraintConflict(nilR, head)
+		suppressed := ndAnd(last.Line >= from, last.Line <= to)
+		want += ndIteInt(suppressed, 0, 1)
+	}
+	diags := e.Diagnostics(grouping)
+	ndObserveInt("diagnostics", len(diags))
+	ndAssert("C11.F.suppressed_iff_the_reported_line_is_in_the_range", len(diags) == want)
 }
 
 var _ = annotation.LocatedRepr{}
